@@ -63,10 +63,13 @@ THEOREMS = [
 ]
 RULE = (
     "case = (history of <=8 (quick) / <=14 (thorough) operations, probe): operations are `new executor` of any of the 3 "
-    "backends, `add_extended_md`, `translate` of a catalogue query (23 queries over the 3 backends: scalar/sequence/tuple "
-    "results, default-typed methods, own collections, C++ functions, enums) with 0-4 metadata dictionaries drawn from all "
+    "backends, `add_extended_md`, `translate` of a catalogue query (29 queries over the 3 backends: scalar/sequence/tuple "
+    "results, default-typed methods, own collections, C++ functions, DeltaR, enums, and queries that use a collection / "
+    "function only an EARLIER query declared) with 0-4 metadata dictionaries drawn from all "
     "kinds (method types incl. collection types, enums, inject_code, job scripts, C++ functions, collections of the right "
-    "and the wrong backend, extended metadata, malformed) and an intended ending (success ~60%, failure in process_metadata, "
+    "and the wrong backend, RE-declarations of built-in names (Jets, Muons, DeltaR), job-script blocks with the "
+    "`depends_on` key left out and repeated blocks with identical script and different `depends_on`, extended metadata, "
+    "malformed) and an intended ending (success ~60%, failure in process_metadata, "
     "in the func_adl rewrites, in the C++ finder, in write_cpp_files); the probe is a catalogue query with its own "
     "metadata, on a new executor or on an existing one. Every case runs in its own Python process; the candidate history "
     "is cut before the first operation outside the theorems' hypotheses. Non-trivial = the history contains at least one "
@@ -82,6 +85,7 @@ ASSUMPTIONS = [
     "queries are handled as (add_extended_md;) apply_ast_transformations; write_cpp_files on one executor, one after the other (no interleaving, no threads)",
     "every query arrives as a freshly parsed AST (no AST object is shared between two translations)",
     "generated names only need to be consistent: results are compared up to one bijective renumbering of identifiers that end in digits",
+    "what a translation shows its caller = ending (ok / stage + exception class), the rendered files, extended_md(k) for the kinds the caller registered, and the WARNING-and-above records the library logs while translating (compared like a file)",
     "the names one translation generates do not collide (unique_name = name ++ index is not injective, e.g. columns `x1` and `x`: theorem leak_counterexample_name_counter and the listed finding; the catalogue queries have no such column names)",
     "extended metadata prototypes have one class per key (executor maps type(prototype) back to its key)",
     "nobody calls cpp_functions.add_function_mapping / mutates the backend collection tables at run time (not reachable from a query)",
@@ -100,6 +104,12 @@ MD_MYF = {"metadata_type": "add_cpp_function", "name": "MyF", "include_files": [
 MD_COLOR = {"metadata_type": "define_enum", "namespace": "xAOD.Jet", "name": "Color", "values": ["Red", "Blue"]}
 MD_COLOR_RED = {"metadata_type": "define_enum", "namespace": "xAOD.Jet", "name": "Color", "values": ["Red"]}
 MD_VALS = {"metadata_type": "add_method_type_info", "type_string": "xAOD::Jet", "method_name": "vals", "return_type_element": "float"}
+# one query's metadata may REPLACE a built-in collection / function — for that query only
+MD_JETS_REDECL = {"metadata_type": "add_atlas_event_collection_info", "name": "Jets", "include_files": ["xAODCaloEvent/CaloClusterContainer.h"], "container_type": "xAOD::CaloClusterContainer", "element_type": "xAOD::CaloCluster", "contains_collection": True, "link_libraries": ["xAODCaloEvent"]}
+MD_MUONS_REDECL_AOD = {"metadata_type": "add_cms_aod_event_collection_info", "name": "Muons", "include_files": ["my/OtherMu.h"], "container_type": "my::OtherMuCollection", "element_type": "my::OtherMu", "contains_collection": True}
+MD_MUONS_REDECL_MINI = {"metadata_type": "add_cms_miniaod_event_collection_info", "name": "Muons", "include_files": ["my/OtherMu.h"], "container_type": "my::OtherMuCollection", "element_type": "my::OtherMu", "contains_collection": True}
+MD_DELTAR_REDECL = {"metadata_type": "add_cpp_function", "name": "DeltaR", "include_files": ["my/dr.h"], "arguments": ["eta1", "phi1", "eta2", "phi2"], "code": ["auto result = my_delta_r(eta1, phi1, eta2, phi2);"], "return_type": "double"}
+REDECL = {"atlas": [MD_JETS_REDECL, MD_DELTAR_REDECL], "cms_aod": [MD_MUONS_REDECL_AOD, MD_DELTAR_REDECL], "cms_miniaod": [MD_MUONS_REDECL_MINI, MD_DELTAR_REDECL]}
 
 # id -> (backend, expression, registry keys looked up, metadata the query needs, ending when the needs are met)
 CATALOG: Dict[str, Dict[str, Any]] = {
@@ -115,6 +125,10 @@ CATALOG: Dict[str, Dict[str, Any]] = {
     "atlas.custom_muon_track": {"b": "atlas", "q": "Select(SelectMany(DS, lambda e: e.RecoMuons('mu')), lambda m: m.globalTrack().pt())", "keys": [["reco::Muon", "globalTrack"], ["reco::Track", "pt"], ["double", "pt"]], "needs": [MD_RECOMU_ATLAS], "end": "write"},
     "atlas.myf": {"b": "atlas", "q": f"Select({ATLAS_JETS}, lambda j: MyF(j.pt()))", "keys": [["xAOD::Jet", "pt"]], "needs": [MD_MYF]},
     "atlas.jet_vals": {"b": "atlas", "q": f"Select({ATLAS_JETS}, lambda j: j.vals())", "keys": [["xAOD::Jet", "vals"]], "needs": [MD_VALS]},
+    "atlas.deltar": {"b": "atlas", "q": f"Select({ATLAS_JETS}, lambda j: DeltaR(j.eta(), j.phi(), 0.0, 0.0))", "keys": [["xAOD::Jet", "eta"], ["xAOD::Jet", "phi"]]},
+    # no metadata: the names were declared, if at all, by an earlier query — must be refused as in a fresh process
+    "atlas.myjets_undeclared": {"b": "atlas", "q": "Select(SelectMany(DS, lambda e: e.MyJets('undeclared')), lambda j: j.pt())", "keys": [["my::Jet", "pt"]], "end": "write", "history": False},
+    "atlas.myf_undeclared": {"b": "atlas", "q": f"Select({ATLAS_JETS}, lambda j: MyF(j.eta()))", "keys": [["xAOD::Jet", "eta"]], "end": "write", "history": False},
     "atlas.bad_write": {"b": "atlas", "q": "Select(DS, lambda e: e.Jets('J'))", "keys": [], "end": "write"},
     "atlas.bad_write_pt": {"b": "atlas", "q": f"Select({ATLAS_JETS}, lambda j: j.pt().nothing())", "keys": [["xAOD::Jet", "pt"], ["double", "nothing"]], "end": "write"},
     "atlas.bad_transform": {"b": "atlas", "q": "Select(DS, lambda e: (1, 2)[5])", "keys": [], "end": "transform"},
@@ -122,9 +136,12 @@ CATALOG: Dict[str, Dict[str, Any]] = {
     "cms_aod.muons_pt": {"b": "cms_aod", "q": "Select(SelectMany(DS, lambda e: e.Muons('muons')), lambda m: m.pt())", "keys": [["reco::Muon", "pt"]]},
     "cms_aod.muon_track": {"b": "cms_aod", "q": "Select(SelectMany(DS, lambda e: e.Muons('muons')), lambda m: m.globalTrack().pt())", "keys": [["reco::Muon", "globalTrack"], ["reco::Track", "pt"]]},
     "cms_aod.mymu_pt": {"b": "cms_aod", "q": "Select(SelectMany(DS, lambda e: e.MyMu('mm')), lambda m: m.pt())", "keys": [["my::Mu", "pt"]], "needs": [MD_MYMU_AOD]},
+    "cms_aod.deltar": {"b": "cms_aod", "q": "Select(SelectMany(DS, lambda e: e.Muons('muons')), lambda m: DeltaR(m.eta(), m.phi(), 0.0, 0.0))", "keys": [["reco::Muon", "eta"], ["reco::Muon", "phi"]]},
+    "cms_aod.mymu_undeclared": {"b": "cms_aod", "q": "Select(SelectMany(DS, lambda e: e.MyMu('undeclared')), lambda m: m.pt())", "keys": [["my::Mu", "pt"]], "end": "write", "history": False},
     "cms_aod.bad_write": {"b": "cms_aod", "q": "Select(DS, lambda e: e.Muons('muons'))", "keys": [], "end": "write"},
     "cms_miniaod.muons_pt": {"b": "cms_miniaod", "q": "Select(SelectMany(DS, lambda e: e.Muons('slimmedMuons')), lambda m: m.pt())", "keys": [["pat::Muon", "pt"]]},
     "cms_miniaod.muon_track": {"b": "cms_miniaod", "q": "Select(SelectMany(DS, lambda e: e.Muons('slimmedMuons')), lambda m: m.globalTrack().pt())", "keys": [["pat::Muon", "globalTrack"], ["reco::TrackRef", "pt"]]},
+    "cms_miniaod.mymu_undeclared": {"b": "cms_miniaod", "q": "Select(SelectMany(DS, lambda e: e.MyMu('undeclared_too')), lambda m: m.pt())", "keys": [["my::Mu", "pt"]], "end": "write", "history": False},
     "cms_miniaod.bad_write": {"b": "cms_miniaod", "q": "Select(DS, lambda e: e.Muons('slimmedMuons'))", "keys": [], "end": "write"},
 }
 BY_EXPR = {v["q"]: k for k, v in CATALOG.items()}
@@ -185,15 +202,26 @@ JOBS = {
 
 def gen_job_md(rng, allow_broken: bool) -> List[Dict[str, Any]]:
     """a dependency-closed, acyclic set of blocks (names always carry the same script), or — for an intended failure in
-    write_cpp_files on ATLAS — one that depends on a block that is never sent"""
+    write_cpp_files on ATLAS — one that depends on a block that is never sent.  A block without dependencies may leave
+    the `depends_on` key out; a block may be repeated (identical script) with a different `depends_on`: the
+    dependencies are merged."""
     names = rng.sample(sorted(JOBS), rng.randint(1, 3))
     names.sort()
     out = []
     for i, n in enumerate(names):
         deps = [d for d in names[:i] if rng.random() < 0.5]
-        out.append({"metadata_type": "add_job_script", "name": n, "script": list(JOBS[n]), "depends_on": deps})
+        blk = {"metadata_type": "add_job_script", "name": n, "script": list(JOBS[n])}
+        if deps or rng.random() < 0.5:
+            blk["depends_on"] = deps
+        out.append(blk)
+    if len(names) >= 2 and rng.random() < 0.5:
+        # the last block once more: one copy without `depends_on`, one depending on an earlier block
+        n, d = names[-1], rng.choice(names[:-1])
+        out = [b for b in out if b["name"] != n]
+        out.append({"metadata_type": "add_job_script", "name": n, "script": list(JOBS[n])})
+        out.append({"metadata_type": "add_job_script", "name": n, "script": list(JOBS[n]), "depends_on": [d]})
     if allow_broken:
-        out[-1]["depends_on"] = out[-1]["depends_on"] + ["never_sent"]
+        out[-1]["depends_on"] = out[-1].get("depends_on", []) + ["never_sent"]
     rng.shuffle(out)
     return out
 
@@ -233,7 +261,7 @@ def gen_extras(rng, b: str, avoid_keys, avoid_tops, ok_intent: bool, allow_job=T
             if allow_job and not any(x.get("metadata_type") == "add_job_script" for x in md):
                 md.extend(gen_job_md(rng, False))
         elif r < 0.93:
-            md.append(rng.choice(COLLS[b]))
+            md.append(rng.choice(COLLS[b] + REDECL[b]))
         else:
             md.append(MD_MYF)
     return md
@@ -258,6 +286,10 @@ def gen_case(rng, tier: str) -> Dict[str, Any]:
         probe_md.append(ext_md(rng, rng.choice(XKINDS)))  # not registered: must be refused in both worlds
     if rng.random() < 0.5:
         probe_md = probe_md + gen_extras(rng, b, [], [], True, n_max=2)
+    if rng.random() < 0.2 and not any(m.get("metadata_type") == "add_job_script" for m in probe_md):
+        # one job-script block that depends on nothing and says so by leaving `depends_on` out
+        n = rng.choice(sorted(JOBS))
+        probe_md.append({"metadata_type": "add_job_script", "name": n, "script": list(JOBS[n])})
     on_existing = rng.random() < 0.55
     nmax = 8 if tier == "quick" else 14
     n = rng.randint(1, nmax)
@@ -288,7 +320,7 @@ def gen_case(rng, tier: str) -> Dict[str, Any]:
                 kind, must_succeed = rng.choice(sorted(kinds_probe)), True
             hist.append({"op": "addx", "e": e, "x": {kind: rng.choice(["img", "h1", "h2"])}})
             if must_succeed or (rng.random() < 0.6 and len(hist) < n):
-                q = rng.choice([k for k, v in CATALOG.items() if v["b"] == eb and v.get("end", "ok") == "ok"])
+                q = rng.choice([k for k, v in CATALOG.items() if v["b"] == eb and v.get("end", "ok") == "ok" and v.get("history", True)])
                 own = (on_existing and e == e0 and kind in probe_x)
                 md = list(CATALOG[q].get("needs", [])) + ([] if own else [ext_md(rng, kind)])
                 md = [m for m in md if m.get("metadata_type") != "define_enum" or m["namespace"].split(".")[0] not in N]
@@ -301,10 +333,15 @@ def gen_case(rng, tier: str) -> Dict[str, Any]:
         intent = rng.choices(["ok", "md", "transform", "finder", "wrong", "write"], [60, 9, 5, 5, 6, 15])[0]
         same = on_existing and e == e0
         if intent == "ok":
-            q = rng.choice([k for k, v in CATALOG.items() if v["b"] == eb and v.get("end", "ok") == "ok"])
+            q = rng.choice([k for k, v in CATALOG.items() if v["b"] == eb and v.get("end", "ok") == "ok" and v.get("history", True)])
             md = list(CATALOG[q].get("needs", []))
             # a successful translation may declare anything, in particular types on the probe's own keys
             extra = gen_extras(rng, eb, [], N, True)
+            if rng.random() < 0.2 and not any(m.get("metadata_type") == "add_job_script" for m in extra):
+                extra.extend(gen_job_md(rng, False))
+            if rng.random() < 0.3:
+                # re-declare a built-in collection / DeltaR, or declare MyJets / MyMu / MyF, for THIS query only
+                extra.append(rng.choice(REDECL[eb] + COLLS[eb] + [MD_MYF]))
             if K and rng.random() < 0.5:
                 ty, m = rng.choice(K)
                 extra.append({"metadata_type": "add_method_type_info", "type_string": ty, "method_name": m, "return_type": rng.choice(RTYPES)})
@@ -316,20 +353,20 @@ def gen_case(rng, tier: str) -> Dict[str, Any]:
         else:
             extra = gen_extras(rng, eb, K, N, False, allow_job=not (same and intent == "write"))
             if intent == "md":
-                q = rng.choice([k for k, v in CATALOG.items() if v["b"] == eb])
+                q = rng.choice([k for k, v in CATALOG.items() if v["b"] == eb and v.get("history", True)])
                 bad = rng.choice(BAD_MD + [INJECTS[1]])
                 pos = rng.randint(0, len(extra))
                 md = extra[:pos] + ([INJECTS[0]] if bad is INJECTS[1] else []) + [bad] + extra[pos:]
             elif intent == "wrong":
-                q = rng.choice([k for k, v in CATALOG.items() if v["b"] == eb])
+                q = rng.choice([k for k, v in CATALOG.items() if v["b"] == eb and v.get("history", True)])
                 other = rng.choice([x for x in BACKENDS if x != eb])
                 md = extra + [rng.choice(COLLS[other])]
                 rng.shuffle(md)
             else:
-                cands = [k for k, v in CATALOG.items() if v["b"] == eb and v.get("end") == intent and not any(x.get("metadata_type") == "define_enum" for x in v.get("needs", []))]
+                cands = [k for k, v in CATALOG.items() if v["b"] == eb and v.get("end") == intent and v.get("history", True) and not any(x.get("metadata_type") == "define_enum" for x in v.get("needs", []))]
                 if not cands:
                     if intent == "write" and eb == "atlas" and not same:
-                        q = rng.choice([k for k, v in CATALOG.items() if v["b"] == eb and v.get("end", "ok") == "ok" and not v.get("needs")])
+                        q = rng.choice([k for k, v in CATALOG.items() if v["b"] == eb and v.get("end", "ok") == "ok" and v.get("history", True) and not v.get("needs")])
                         md = extra + gen_job_md(rng, True)
                         hist.append({"op": "tr", "e": e, "q": CATALOG[q]["q"], "md": md})
                     continue
@@ -461,6 +498,9 @@ def probe_model(probe, out_after, out_fresh) -> Dict[str, Any]:
 def obs_of(out: Dict[str, Any]) -> Dict[str, Any]:
     kind = "ok" if out["stage"] == "ok" else f"{out['stage']}:{out['error']}"
     files = [[n, t.split("\n")] for n, t in sorted((out.get("files") or {}).items())]
+    # what the library logged (WARNING and above) during the translation is part of what the caller is told: it is
+    # compared like a file (so a guess remembered from an earlier query that silences a later query's warning shows)
+    files.append(["<log>", list(out.get("log", []))])
     return {"kind": kind, "files": files, "found": list(out.get("found", []))}
 
 
@@ -663,7 +703,7 @@ def evaluate(ctx, cases: List[Dict[str, Any]], stream: str, judge: bool = True, 
                 ctx.disagreement("found-extended-md-of-probe", {"history": hist, "probe": c["probe"]}, mf, r["probe"].get("found"))
         # the footprint the model was told must cover what the translator really looked up
         qid = BY_EXPR.get(c["probe"]["q"])
-        if qid is not None and not any(m.get("metadata_type") == "add_method_type_info" for m in c["probe"]["md"]):
+        if qid is not None and c["probe"]["md"] == list(CATALOG[qid].get("needs", [])):
             declared = {tuple(k) for k in CATALOG[qid]["keys"]}
             measured = {tuple(k) for k in r["probe"].get("keys", [])} | {tuple(k) for k in fr.get("keys", [])}
             if not measured <= declared:
